@@ -1733,3 +1733,74 @@ Proof.
       rewrite E2. apply ForallOrdPairs_rev in FW. exact FW.
   - split; [apply MF|]. unfold line_positions. apply forward_line; try assumption. reflexivity.
 Qed.
+
+(* ---------- the auto-margin branch of distribute_remaining_free_space: margin boxes still do not overlap, but
+   the gap is not inserted (offset_main stays 0) *)
+Definition aprem (c : Item) : Prop :=
+  finite (fi_margin_start c) /\ finite (fi_margin_end c) /\ finite (fi_inset c) /\ finite (fi_outer_target c) /\
+  finite (fi_offset c) /\
+  0 <= val (fi_margin_start c) /\ 0 <= val (fi_margin_end c) /\ val (fi_inset c) == 0 /\ val (fi_offset c) == 0.
+
+Lemma count_auto_nonneg (items : list Item) : (0 <= count_auto items)%Z.
+Proof.
+  unfold count_auto.
+  assert (G : forall z, (0 <= z)%Z -> (0 <= fold_left (fun (n : Z) (c : Item) =>
+     (n + (if fi_margin_start_auto c then 1 else 0) + (if fi_margin_end_auto c then 1 else 0))%Z) items z)%Z).
+  { induction items as [|a l IH]; intros z Hz; simpl; [assumption|]. apply IH.
+    destruct (fi_margin_start_auto a), (fi_margin_end_auto a); lia. }
+  apply G. lia.
+Qed.
+
+Theorem order_auto_margins (items : list Item) (gap inner start : XQ) (jc : option AlignContent) (rv : bool) (sizes : list XQ) :
+  finite gap -> finite inner -> finite start ->
+  (forall c, In c items -> aprem c) ->
+  length sizes = length items -> (forall s, In s sizes -> finite s /\ 0 <= val s) ->
+  let free := sub inner (add (sum_axis_gaps gap (zlen items)) (fsum (map fi_outer_target items))) in
+  0 < val free -> (0 < count_auto items)%Z ->
+  let items' := distribute_remaining_free_space items gap inner jc rv in
+  let pos := line_positions start rv (combine items' sizes) in
+  (forall c, In c items' -> 0 <= val (fi_margin_start c) /\ 0 <= val (fi_margin_end c)) /\
+  ForallOrdPairs (fun a b => if rv then sepR 0 b a else sepR 0 a b) (combine (combine items' sizes) pos).
+Proof.
+  intros Fg Fi Fs Hp Hl Hs free Fpos Cpos. cbv zeta.
+  unfold distribute_remaining_free_space. fold free.
+  assert (Ff : finite free).
+  { unfold free. destruct (fsum_fin fi_outer_target items) as [A1 _]; [intros c Hc; apply (Hp c Hc)|].
+    apply sub_fin; [assumption|]. apply add_fin; [apply sum_axis_gaps_fin; assumption | assumption]. }
+  assert (E1 : gtb free zero = true) by (unfold gtb; apply ltb_true; [exact fin_zero|assumption|rewrite val_zero; assumption]).
+  assert (E2 : (0 <? count_auto items)%Z = true) by (apply Z.ltb_lt; assumption).
+  rewrite E1, E2. cbn [andb].
+  set (m := div free (of_Z (count_auto items))).
+  assert (Fm : finite m /\ 0 <= val m).
+  { destruct (of_Z_fin (count_auto items)) as [Z1 Z2].
+    assert (Dp : 0 < inject_Z (count_auto items)) by (replace 0 with (inject_Z 0) by reflexivity; rewrite <- Zlt_Qlt; lia).
+    destruct (div_fin free (of_Z (count_auto items)) Ff Z1) as [D1 D2]; [rewrite Z2; lra|].
+    split; [assumption|]. unfold m. rewrite D2, Z2. apply Qle_shift_div_l; [assumption|lra]. }
+  set (sm := fun c : Item => set_margins c (if fi_margin_start_auto c then m else fi_margin_start c)
+                                         (if fi_margin_end_auto c then m else fi_margin_end c)).
+  assert (PP : forall c, In c items -> pos_prem (sm c) /\ 0 <= val (fi_offset (sm c))).
+  { intros c Hc. destruct (Hp c Hc) as [A1 [A2 [A3 [A4 [A5 [A6 [A7 [A8 A9]]]]]]]]. destruct Fm as [Fm1 Fm2].
+    unfold pos_prem, sm. fi_simpl. repeat split; try assumption;
+      try (destruct (fi_margin_start_auto c); assumption); try (destruct (fi_margin_end_auto c); assumption). lra. }
+  set (items' := map sm items).
+  assert (L1 : length items' = length sizes) by (unfold items'; rewrite map_length; lia).
+  assert (PL : forall it s, In (it, s) (combine items' sizes) -> pos_prem it /\ finite s /\ 0 <= val s).
+  { intros it s Hi. pose proof (in_combine_l _ _ _ _ Hi) as H1. pose proof (in_combine_r _ _ _ _ Hi) as H2.
+    apply in_map_iff in H1. destruct H1 as [c [<- Hc]]. split; [apply PP; assumption | apply Hs; assumption]. }
+  assert (PO : forall it s, In (it, s) (combine items' sizes) -> 0 <= val (fi_offset it)).
+  { intros it s Hi. pose proof (in_combine_l _ _ _ _ Hi) as H1.
+    apply in_map_iff in H1. destruct H1 as [c [<- Hc]]. apply PP; assumption. }
+  split.
+  { intros c' Hc'. apply in_map_iff in Hc'. destruct Hc' as [c [<- Hc]]. destruct (PP c Hc) as [[_ [_ [_ [_ [B1 [B2 _]]]]]] _]. auto. }
+  unfold line_positions. destruct rv.
+  - set (L := rev (combine items' sizes)).
+    assert (FW : ForallOrdPairs (sepR 0) (combine L (place start L))).
+    { apply place_pairs; [lra| | |assumption].
+      - intros it s Hi. apply PL. apply in_rev. assumption.
+      - destruct L as [|x r] eqn:EL; [exact I|]. intros it s Hi. apply (PO it s). apply in_rev. fold L. rewrite EL. right. assumption. }
+    assert (E3 : combine (combine items' sizes) (rev (place start L)) = rev (combine L (place start L))).
+    { rewrite <- combine_rev' by (rewrite place_length; reflexivity). unfold L. rewrite rev_involutive. reflexivity. }
+    rewrite E3. apply ForallOrdPairs_rev in FW. exact FW.
+  - apply place_pairs; [lra|assumption| |assumption].
+    destruct (combine items' sizes) as [|x r] eqn:EL; [exact I|]. intros it s Hi. apply (PO it s). right. assumption.
+Qed.
